@@ -424,7 +424,9 @@ fn oracles(c: &Case, allow_run: &RunOut, full_bindings: &str, st: &mut Stats, fa
     }
     // ---- needs: everything a matching declaration transitively needs (generator's own dependency relation) is generated, also
     //      when the matching declaration itself is blocklisted (the user supplies that one; what it refers to is still bindgen's)
-    if c.recursive && !nothing {
+    // (the generator's dependency relation counts what method, constructor and destructor signatures mention: it is the relation of
+    // the traversal only when all three are generated; `--generate` lists without them are covered by corpus/C09)
+    if c.recursive && !nothing && (cfg & 56) == 56 {
         st.bump("needs-checked");
         let decl_blocked = |i: usize| -> bool {
             let dd = &p.decls[i];
